@@ -15,9 +15,9 @@ Each `accepts…` mirrors one `assert_constraints`: one conjunct per `tf.Assert`
   as the list of its columns `kernel[:, u]`, with the real reductions over the unit axis
   (`reduce_min` / `reduce_max` over all entries, `reduce_all` over per-unit tests). Props/C12Units.lean
   proves: the layer accepts iff every unit column is accepted.
-* PWL layer level: `PWLCalibration.assert_constraints` evaluates `keypoints_outputs()` for
-  `learned_interior` keypoints (since 57c7e1f) and `call(input_keypoints)` for fixed ones; both are
-  modelled literally (`pwlLayerOutputs`, on `Tfl.PwlEval`).
+* PWL layer level: `PWLCalibration.assert_constraints` judges `keypoints_outputs()` (for
+  `learned_interior` keypoints since 57c7e1f, for fixed ones since 164b31b): `pwlLayerOutputs`, on
+  `Tfl.PwlEval`.
 -/
 namespace Tfl.Asserts
 open Tfl Tfl.Poset Tfl.Linear
@@ -278,24 +278,11 @@ def acceptsLinearLayer (monos : List Int) (md rd : Pairs) (los his : List (Optio
     (cols : List (List Rat)) (eps : Rat) : Bool :=
   linMonoL monos cols eps && linMdomL md cols eps && linRdomL monos rd los his cols eps && linNormL ord cols eps
 
-/-- `PWLCalibration.call` for one unit at input `x`, as `assert_constraints` invokes it (no softmax
-row is needed: fixed keypoints): `call([x, zeros])` when imputing without a `missing_input_value`,
-`call(x)` otherwise (`missing_output` where `x == missing_input_value`) -/
-def pwlCallAt (cfg : PwlEval.Cfg) (kernel : List Rat) (mo x : Rat) : Rat :=
-  let result := PwlEval.calibrate cfg kernel [] x
-  if cfg.imputeMissing then
-    match cfg.missingInputValue with
-    | none => 0 * mo + (1 - 0) * result
-    | some v =>
-      let m : Rat := if x = v then 1 else 0
-      m * mo + (1 - m) * result
-  else result
-
-/-- the `outputs` column of unit `u` in `PWLCalibration.assert_constraints`:
-`keypoints_outputs()` for `learned_interior` keypoints, `call(input_keypoints)` for fixed ones -/
-def pwlLayerOutputs (cfg : PwlEval.Cfg) (kernel : List Rat) (mo : Rat) : List Rat :=
-  if cfg.learned then PwlEval.keypointsOutputs cfg kernel
-  else cfg.inputKeypoints.map (pwlCallAt cfg kernel mo)
+/-- the `outputs` column of unit `u` in `PWLCalibration.assert_constraints`: `keypoints_outputs()`
+in every case (learned keypoints since 57c7e1f, fixed keypoints since 164b31b; before, the layer
+evaluated `call(input_keypoints)`: `C12.oldCallOutputs`, Props/C12Units.lean) -/
+def pwlLayerOutputs (cfg : PwlEval.Cfg) (kernel : List Rat) : List Rat :=
+  PwlEval.keypointsOutputs cfg kernel
 
 /-- `pwl_calibration_lib.assert_constraints(outputs (K, units), …)`: bounds and clamps test
 `reduce_min/max(outputs, axis=0)` per unit and `reduce_all`; monotonicity is ONE
@@ -310,13 +297,13 @@ def acceptsPwlOutputsLayer (mono : Int) (lo hi : Option Rat) (clampMin clampMax 
   pwlMonoL mono outs eps
 
 /-- `PWLCalibration.assert_constraints(eps)`: `cols[u]` the kernel column, `mouts[u]` the entry of
-`self.missing_output` of unit `u` (`0` when the layer does not impute);
+`self.missing_output` of unit `u` (read only when `assertMissing`);
 `assertMissing = impute_missing and missing_output_value is None` (the learned missing output is
 judged against the bounds, as a `(1, units)` outputs tensor) -/
 def acceptsPwlLayer (mono : Int) (lo hi : Option Rat) (clampMin clampMax : Bool) (assertMissing : Bool)
     (cfg : PwlEval.Cfg) (cols : List (List Rat)) (mouts : List Rat) (eps : Rat) : Bool :=
   acceptsPwlOutputsLayer mono lo hi clampMin clampMax
-    ((List.range cols.length).map (fun u => pwlLayerOutputs cfg (cols.getD u []) (getR mouts u))) eps &&
+    ((List.range cols.length).map (fun u => pwlLayerOutputs cfg (cols.getD u []))) eps &&
   (if assertMissing then
      acceptsPwlOutputsLayer 0 lo hi false false ((List.range cols.length).map (fun u => [getR mouts u])) eps
    else true)
